@@ -99,8 +99,8 @@ func walkAttributes(elem *etree.Element) {
 		switch t := token.(type) {
 		case *etree.Element:
 			walkAttributes(t)
-		case *etree.CharData:
-			// keep
+		case *etree.CharData, *etree.ProcInst:
+			// keep; only comments are dropped by canonicalization
 		default:
 			// remove
 			elem.Child = append(elem.Child[:i], elem.Child[i+1:]...)
